@@ -367,6 +367,112 @@ def super_expect_ops(T):
                     lambda d: qutip.mesolve(d["L"], d["rho"], d["tlist"], e_ops=[d["E"]], options={"store_states": True}), detail={"form": fname, "state": sfmt})
 
 
+def misc_ops(T, tier):
+    """the rest of the public functions that take quantum objects: each leaves its inputs alone and repeats its answer"""
+    import qutip
+    for fmt in ("csr", "dense"):
+        H0, H1, c, psi, e = system(fmt)
+        rho = to_fmt(qutip.ket2dm(psi), fmt)
+        rho2 = to_fmt(qutip.ket2dm((qutip.basis(2, 0) - 0.3 * qutip.basis(2, 1)).unit()), fmt)
+        Htd = lambda: qutip.QobjEvo([H0, [H1, f_sin]], args={"w": 1.3})       # noqa: E731
+        tl = np.linspace(0, 1.0, 5)
+        two = qutip.tensor(rho, rho2)
+        bell = qutip.ket2dm(qutip.bell_state("00"))
+        U = to_fmt(qutip.rand_unitary(2, seed=3), fmt)
+        S = qutip.to_super(U)
+        calls = {
+            "scattering_probability": ({"H": H0, "psi": psi, "c_ops": [c[0]], "tlist": tl}, lambda d: qutip.scattering_probability(d["H"], d["psi"], 1, d["c_ops"], d["tlist"])),
+            "scattering_probability-evo": ({"H": Htd(), "psi": psi, "c_ops": [c[0]], "tlist": tl}, lambda d: qutip.scattering_probability(d["H"], d["psi"], 1, d["c_ops"], d["tlist"])),
+            "temporal_scattered_state-evo": ({"H": Htd(), "psi": psi, "c_ops": [c[0]], "tlist": tl}, lambda d: qutip.temporal_scattered_state(d["H"], d["psi"], 1, d["c_ops"], d["tlist"])),
+            "temporal_basis_vector": ({"tlist": tl}, lambda d: qutip.temporal_basis_vector([[1], []], len(d["tlist"]))),
+            "Propagator-call-kwargs": ({"H": qutip.QobjEvo([H0, [H1, f_sin]], args={"w": 1.3}), "args": {"w": 1.3}},
+                                       lambda d: _prop_kwargs(d)),
+            "propagator-args": ({"H": qutip.QobjEvo([H0, [H1, f_sin]], args={"w": 1.3}), "args": {"w": 0.4}, "tlist": tl, "c_ops": list(c)},
+                                lambda d: (qutip.propagator(d["H"], d["tlist"], d["c_ops"], args=d["args"]), qutip.propagator(d["H"], 0.5, args=d["args"]))),
+            "propagator_steadystate": ({"U": qutip.propagator(H0, 1.0, list(c))}, lambda d: qutip.propagator_steadystate(d["U"])),
+            "correlation_2op_2t": ({"H": H0, "rho": rho, "tlist": tl[:3], "taulist": tl[:3], "c_ops": list(c), "a": e[0], "b": e[1]},
+                                   lambda d: qutip.correlation_2op_2t(d["H"], d["rho"], d["tlist"], d["taulist"], d["c_ops"], d["a"], d["b"])),
+            "correlation_3op_1t": ({"H": H0, "rho": rho, "taulist": tl[:3], "c_ops": list(c), "a": e[0], "b": e[1]},
+                                   lambda d: qutip.correlation_3op_1t(d["H"], d["rho"], d["taulist"], d["c_ops"], d["a"], d["b"], d["a"])),
+            "correlation-td": ({"H": Htd(), "rho": rho, "taulist": tl[:3], "c_ops": list(c), "a": e[0], "b": e[1], "args": {"w": 0.7}},
+                               lambda d: qutip.correlation_2op_1t(d["H"], d["rho"], d["taulist"], d["c_ops"], d["a"], d["b"], args=d["args"])),
+            "coherence_functions": ({"H": H0, "rho": rho, "taulist": tl[:3], "c_ops": list(c), "a": c[0]},
+                                    lambda d: (qutip.coherence_function_g1(d["H"], d["rho"], d["taulist"], d["c_ops"], d["a"]), qutip.coherence_function_g2(d["H"], d["rho"], d["taulist"], d["c_ops"], d["a"]))),
+            "spectrum": ({"H": H0, "wlist": np.linspace(-1, 1, 5), "c_ops": list(c), "a": e[0], "b": e[1]},
+                         lambda d: qutip.spectrum(d["H"], d["wlist"], d["c_ops"], d["a"], d["b"])),
+            "spectrum-pi": ({"H": H0, "wlist": np.linspace(-1, 1, 5) + 0.013, "c_ops": list(c), "a": e[0], "b": e[1]},
+                            lambda d: qutip.spectrum(d["H"], d["wlist"], d["c_ops"], d["a"], d["b"], solver="pi")),
+            "spectrum_correlation_fft": ({"tlist": np.linspace(0, 4, 16), "y": np.cos(np.linspace(0, 4, 16)).astype(complex)}, lambda d: qutip.spectrum_correlation_fft(d["tlist"], d["y"])),
+            "countstat": ({"L": qutip.liouvillian(H0, c), "c_ops": list(c), "wlist": np.array([0.0, 0.5])},
+                          lambda d: (qutip.countstat_current(d["L"], d["c_ops"]), qutip.countstat_current_noise(d["L"], d["c_ops"], wlist=d["wlist"]))),
+            "entropies": ({"rho": rho, "two": two, "sigma": rho2},
+                          lambda d: (qutip.entropy_vn(d["rho"]), qutip.entropy_linear(d["rho"]), qutip.entropy_mutual(d["two"], 0, 1), qutip.entropy_conditional(d["two"], 0),
+                                     qutip.entropy_relative(d["rho"], d["sigma"]), qutip.concurrence(d["two"]), qutip.negativity(d["two"], 0), qutip.partial_transpose(d["two"], [0, 1]))),
+            "metrics": ({"rho": rho, "sigma": rho2, "U": U, "S": S, "psi": psi},
+                        lambda d: (qutip.fidelity(d["rho"], d["sigma"]), qutip.tracedist(d["rho"], d["sigma"]), qutip.hilbert_dist(d["rho"], d["sigma"]), qutip.bures_dist(d["rho"], d["sigma"]),
+                                   qutip.bures_angle(d["rho"], d["sigma"]), qutip.hellinger_dist(d["rho"], d["sigma"]), qutip.fidelity(d["psi"], d["rho"]), qutip.process_fidelity(d["S"], d["U"]),
+                                   qutip.average_gate_fidelity(d["S"]), qutip.unitarity(d["S"]), qutip.dnorm(d["S"]) if False else 0)),
+            "distributions": ({"rho": to_fmt(qutip.coherent_dm(4, 0.5), fmt), "xvec": np.linspace(-2, 2, 5)},
+                              lambda d: (qutip.wigner(d["rho"], d["xvec"], d["xvec"]), qutip.qfunc(d["rho"], d["xvec"], d["xvec"]), qutip.wigner(d["rho"], d["xvec"], d["xvec"], method="laguerre"))),
+            "spin_distributions": ({"rho": rho, "theta": np.linspace(0, np.pi, 3), "phi": np.linspace(0, 2 * np.pi, 3)},
+                                   lambda d: (qutip.spin_q_function(d["rho"], d["theta"], d["phi"]), qutip.spin_wigner(d["rho"], d["theta"], d["phi"]))),
+            "measurement": ({"rho": rho, "psi": psi, "op": e[0], "ops": [qutip.basis(2, 0).proj(), qutip.basis(2, 1).proj()]},
+                            lambda d: (qutip.measurement.measurement_statistics(d["rho"], d["op"]), qutip.measurement.measurement_statistics(d["psi"], d["ops"]),
+                                       qutip.measurement.measurement_statistics_observable(d["psi"], d["op"]))),
+            "variance-expect": ({"rho": rho, "psi": psi, "op": e[0], "ops": list(e), "states": [psi, rho]},
+                                lambda d: (qutip.variance(d["op"], d["rho"]), qutip.expect(d["ops"], d["states"]), qutip.expect(d["op"], d["states"]))),
+            "simdiag": ({"ops": [to_fmt(qutip.sigmaz(), fmt), to_fmt(qutip.qeye(2), fmt)]}, lambda d: qutip.simdiag(d["ops"])),
+            "continuous_variables": ({"rho": to_fmt(qutip.tensor(qutip.coherent_dm(3, 0.3), qutip.thermal_dm(3, 0.2)), fmt), "a": [qutip.tensor(qutip.destroy(3), qutip.qeye(3)), qutip.tensor(qutip.qeye(3), qutip.destroy(3))]},
+                                     lambda d: (qutip.correlation_matrix_field(d["a"][0], d["a"][1], d["rho"]), qutip.wigner_covariance_matrix(d["a"][0], d["a"][1], rho=d["rho"]),
+                                                qutip.logarithmic_negativity(qutip.wigner_covariance_matrix(d["a"][0], d["a"][1], rho=d["rho"])))),
+            "channel-reps": ({"S": S, "U": U, "K": [U * 0.6, to_fmt(qutip.sigmaz(), fmt) * 0.8]},
+                             lambda d: (qutip.to_choi(d["S"]), qutip.to_kraus(d["S"]), qutip.to_chi(d["S"]), qutip.to_stinespring(d["S"]), qutip.kraus_to_choi(d["K"]), qutip.kraus_to_super(d["K"]),
+                                        d["S"].iscp, d["S"].istp, d["S"].ishp, d["S"].dual_chan())),
+            "subsystem_apply": ({"state": two, "psi2": qutip.tensor(psi, psi), "U": U, "S": S, "mask": [True, False]},
+                                lambda d: (qutip.subsystem_apply(d["state"], d["U"], d["mask"]), qutip.subsystem_apply(d["state"], d["S"], d["mask"], reference=True), qutip.subsystem_apply(d["psi2"], d["U"], d["mask"]))),
+            "tensor-structure": ({"two": two, "op": e[0]},
+                                 lambda d: (qutip.tensor_swap(d["two"], (0, 1)), qutip.tensor_contract(d["two"], (0, 2)), qutip.expand_operator(d["op"], [2, 2], 1), d["two"].permute([1, 0]), d["two"].ptrace([1]),
+                                            qutip.reshuffle(qutip.to_super(d["two"])), qutip.composite(d["op"], d["op"]))),
+            "floquet": ({"H": qutip.QobjEvo([H0, [H1, f_args]], args={"w": 2 * np.pi}), "psi": psi, "tlist": tl, "c_ops": [c[0]], "e_ops": list(e)},
+                        lambda d: (qutip.fmmesolve(d["H"], d["psi"], d["tlist"], c_ops=d["c_ops"], e_ops=d["e_ops"], T=1.0, spectra_cb=[lambda w: 0.1 * (w > 0)]).expect,
+                                   qutip.FloquetBasis(d["H"], 1.0).to_floquet_basis(d["psi"], 0.3), qutip.FloquetBasis(d["H"], 1.0).state(0.3))),
+            "qsave-qload": ({"obj": [rho, psi, S]}, lambda d: _save_load(d["obj"])),
+            "bloch_redfield": ({"H": H0, "a_ops": [[to_fmt(qutip.sigmax(), fmt), lambda w: 0.1 * (w > 0) * w]], "c_ops": [c[1]]},
+                               lambda d: (qutip.bloch_redfield_tensor(d["H"], d["a_ops"], c_ops=d["c_ops"])[0], qutip.brterm(d["H"], d["a_ops"][0][0], d["a_ops"][0][1]))),
+            "transfertensor": ({"dynmaps": [qutip.propagator(H0, t, list(c)) for t in (0.0, 0.1, 0.2, 0.3)], "rho": rho, "times": [0.0, 0.1, 0.2, 0.3, 0.4, 0.5]},
+                               lambda d: _ttm(d)),
+            "krylovsolve-e_ops": ({"H": to_fmt(qutip.num(4) + qutip.position(4), fmt), "psi": qutip.basis(4, 1), "tlist": tl, "e_ops": [qutip.num(4)]},
+                                  lambda d: qutip.krylovsolve(d["H"], d["psi"], d["tlist"], 3, e_ops=d["e_ops"]).expect),
+            "steadystate_floquet": ({"H0": H0, "c_ops": list(c), "Op": H1}, lambda d: qutip.steadystate_floquet(d["H0"], d["c_ops"], d["Op"], w_d=1.0, n_it=2)),
+            "qpt": ({"U": S, "basis": [[qutip.qeye(2), qutip.sigmax(), qutip.sigmay(), qutip.sigmaz()]]}, lambda d: qutip.qpt(d["U"], d["basis"])),
+            "eigen-family": ({"H": H0, "B": to_fmt(qutip.sigmay() + 0.3 * qutip.sigmap(), fmt)},
+                             lambda d: (d["H"].eigenenergies(sparse=False), d["H"].eigenstates(sparse=True, eigvals=1)[0] if type(d["H"].data).__name__ == "CSR" else 0, d["B"].eigenenergies(), d["H"].groundstate()[0],
+                                        d["B"].norm("tr"), d["B"].norm("one"), d["H"].matrix_element(qutip.basis(2, 0), qutip.basis(2, 1)), d["B"].overlap(d["H"]), d["B"].logm(), d["H"].check_herm(), d["B"].trunc_neg() if False else 0)),
+        }
+        for nm, (inputs, fn) in calls.items():
+            T.check(f"{nm}:{fmt}", inputs, fn, detail={"fmt": fmt})
+
+
+def _prop_kwargs(d):
+    import qutip
+    P = qutip.Propagator(d["H"], args=d["args"])
+    return P(0.5), P(0.5, w=0.2), P(0.7, 0.1, w=2.0), P.inv(0.3, w=0.9), P(0.5)
+
+
+def _save_load(objs):
+    import qutip
+    import tempfile
+    with tempfile.TemporaryDirectory() as td:
+        path = os.path.join(td, "obj")
+        qutip.qsave(objs, path)
+        return qutip.qload(path)
+
+
+def _ttm(d):
+    from qutip.solver.nonmarkov.transfertensor import ttmsolve
+    return ttmsolve(d["dynmaps"], d["rho"], d["times"]).states
+
+
 def _iadd_copy(d):
     import qutip
     q = qutip.QobjEvo(d["Q1"])
@@ -665,6 +771,7 @@ def run(tier, seed, replay):
     qobjevo_ops(T, fmts)
     feedback_ops(T)
     super_expect_ops(T)
+    misc_ops(T, tier)
     coefficient_ops(T)
     solver_ops(T, tier, fmts)
     rep.case({"formats": fmts}, True)
